@@ -505,7 +505,10 @@ impl Deb822 {
                 }
                 i
             }
-            None => self.0.children().count(),
+            None => {
+                ensure_trailing_newline(&self.0);
+                self.0.children().count()
+            }
         };
         self.0
             .splice_children(insertion_point..insertion_point, to_insert);
@@ -612,6 +615,26 @@ fn inject(builder: &mut GreenNodeBuilder, node: SyntaxNode) {
         }
     }
     builder.finish_node();
+}
+
+/// Terminate the last line of `node` with a newline if it lacks one (e.g. because the parsed
+/// text did not end in one), so that new content can be appended after it.
+fn ensure_trailing_newline(node: &SyntaxNode) {
+    let last = match node.last_token() {
+        Some(last) if last.kind() != NEWLINE => last,
+        _ => return,
+    };
+    let mut builder = GreenNodeBuilder::new();
+    builder.start_node(EMPTY_LINE.into());
+    builder.token(NEWLINE.into(), "\n");
+    builder.finish_node();
+    let newline = SyntaxNode::new_root_mut(builder.finish())
+        .first_token()
+        .unwrap();
+    let index = last.index() + 1;
+    last.parent()
+        .unwrap()
+        .splice_children(index..index, vec![newline.into()]);
 }
 
 impl FromIterator<Paragraph> for Deb822 {
@@ -821,6 +844,7 @@ impl Paragraph {
     /// Insert a new field
     pub fn insert(&mut self, key: &str, value: &str) {
         let entry = Entry::new(key, value);
+        ensure_trailing_newline(&self.0);
         let count = self.0.children_with_tokens().count();
         self.0.splice_children(count..count, vec![entry.0.into()]);
     }
@@ -838,6 +862,7 @@ impl Paragraph {
                 return;
             }
         }
+        ensure_trailing_newline(&self.0);
         let count = self.0.children_with_tokens().count();
         self.0
             .splice_children(count..count, vec![new_entry.0.into()]);
